@@ -171,7 +171,19 @@ class ExprMixin:
     def e_BoolOp(self, n):
         is_and = isinstance(n.op, ast.And)
         if self.spec:
-            vals = [self.eval(v) for v in n.values]
+            vals = []
+            for v in n.values:
+                try:
+                    vals.append(self.eval(v))
+                except GenError:
+                    # a later operand may be undefined on this path (early return): fine if the earlier
+                    # operands already decide the result under the path condition
+                    if vals:
+                        sofar = self.spec_bool(is_and, vals)
+                        t = self.f_to_term(sofar) if isinstance(sofar, F) else self.b(self.truth(sofar))
+                        if t is not None and not self.feasible(t if is_and else z3.Not(t)):
+                            return not is_and
+                    raise
             return self.spec_bool(is_and, vals)
         # code mode: short-circuit with value semantics
         v = None
@@ -487,7 +499,8 @@ class ExprMixin:
             neg = z3.simplify(i < 0)
             if z3.is_true(neg):
                 i = z3.simplify(i + n)
-            elif not z3.is_false(neg):
+            elif not z3.is_false(neg) and not self.spec:
+                # (clauses never use negative subscripts; they are not Python-normalised in spec mode)
                 i = z3.If(i < 0, i + n, i)
             return self.list_get(base, i)
         if self.kind_of(base) == "str":
